@@ -23,6 +23,13 @@ Proof. destruct v; vm_compute; reflexivity. Qed.
 Lemma to_bool_byte (v : bool) : bytes_to_bool (if v then [xff] else [x00]) = v.
 Proof. destruct v; reflexivity. Qed.
 
+(* run_tape ... 0 st  ~>  run_tape ... (length []) st, the form expected by the step lemmas *)
+Ltac start_tape :=
+  match goal with
+  | |- context [run_tape ?o ?c ?F ?t 0 ?s] =>
+    change (run_tape o c F t 0 s) with (run_tape o c F t (List.length (@nil byte)) s)
+  end.
+
 Section Steps.
 Variable orc : oracle.
 Variable cfg : config.
